@@ -36,7 +36,18 @@ func c08HistScript(caps string) lpScript {
 	return lpScript{Flow: "encrypted", Rounds: [][]lpItem{neg, {lpLoginAck(srv.LogSucceed), lpCaps(caps), lpDone(0)}}}
 }
 
-var c08HistKinds = []string{"ok", "all-zero", "request-zero", "response-zero", "response-omitted", "response-empty"}
+var c08HistKinds = []string{"ok", "all-zero", "request-zero", "response-zero", "response-omitted", "response-empty", "ok+type7"}
+
+// c08HistTypes: the capability types a reply of the kind carries.
+func c08HistTypes(kind string) map[int]bool {
+	switch kind {
+	case "response-omitted":
+		return map[int]bool{1: true}
+	case "ok+type7":
+		return map[int]bool{1: true, 2: true, 7: true}
+	}
+	return map[int]bool{1: true, 2: true}
+}
 
 func c08HistRun(c *Ctx, cs c08HistCase, fresh map[string]*bool) {
 	r := c.R
@@ -84,6 +95,17 @@ func c08HistRun(c *Ctx, cs c08HistCase, fresh map[string]*bool) {
 		r.Violate("panic/"+res.panicked2.Frame+"/history", fmt.Sprintf("second login on a connection (first login answered with capability reply %q, second with %q) panicked: %s", cs.First, cs.Second, res.panicked2.Value), cs)
 	case (res.err2 == nil) != *fresh[cs.Second]:
 		r.Violate("login-outcome-depends-on-earlier-login/"+cs.Second, fmt.Sprintf("the encrypted login answered with capability reply %q %s on a fresh connection, but as the second login on a connection whose first login (outcome: %v) was answered with capability reply %q it returned %v", cs.Second, map[bool]string{true: "succeeds", false: "fails"}[*fresh[cs.Second]], res.err, cs.First, res.err2), cs)
+	case res.err2 == nil && res.kit.conn.Caps != nil && func() bool {
+		// after success the connection's capability set is the one the
+		// server returned: no capability type of an earlier reply survives
+		for t, m := range res.kit.conn.Caps.Capabilities {
+			if !c08HistTypes(cs.Second)[int(t)] && m != nil && int(t) > 3 {
+				return true
+			}
+		}
+		return false
+	}():
+		r.Violate("capability-set-not-the-returned/history/"+cs.First+"-then-"+cs.Second, fmt.Sprintf("after the second, accepted login (capability reply %q) the connection's capability set still has a capability type that only the FIRST reply (%q) carried: %v", cs.Second, cs.First, res.kit.conn.Caps), cs)
 	case cs.Second == "all-zero" && res.err2 == nil:
 		r.Violate("accepted-invalid-reply/history/all-zero", fmt.Sprintf("second login answered with all-zero capabilities (first login answered with %q) returned nil", cs.First), cs)
 	}
